@@ -8,7 +8,7 @@ from verif import tracecheck
 from verif.mdibharness import MdibReplayer, apply_tok, canon
 from verif.tlc import MachineryError, json_lines, run_tlc
 
-SIM_H = ['vmd', 'ch', 'm1', 'dA', 'dB', 'pc', 'al', 'op', 'rt', 'asy', 'sco']
+SIM_H = ['vmd', 'ch', 'm1', 'dA', 'dB', 'pc', 'al', 'op', 'rt', 'asy', 'sco', 'm2']
 SIM_CH = ['c1', 'c2']
 
 FAMILY = {
@@ -236,8 +236,10 @@ def lifecycle_behaviours(run):
 
 def record(behs):
     traces = []
-    for beh in behs:
-        rp = C03Replayer(SIM_H, SIM_CH)
+    from verif.mdibharness import MAPPINGS, load_mdib
+    for i, beh in enumerate(behs):
+        fixture, map_d = MAPPINGS['two' if i % 3 == 2 else 'one']      # every third history on the two-MDS fixture
+        rp = C03Replayer(SIM_H, SIM_CH, mdib=load_mdib(fixture), map_d=map_d)
         traces.append(rp.run(beh))
     return traces
 
